@@ -23,6 +23,14 @@ def helper_case(rng, fam, g, doc: Node, docs, helper):
     ps = S.boundary_positions(doc)
     a = rng.choice(ps)
     c = rng.choice([p for p in ps if p >= a])
+    if helper == "lift_target" and rng.random() < 0.7:
+        # ranges deep inside nested containers (lists in lists, quotes in lists), short ones, so that siblings
+        # remain before/after the lifted range at the inner level
+        deep = [p for p in ps if doc.resolve(p).depth >= 3]
+        if deep:
+            a = rng.choice(deep)
+            near = [p for p in deep if a <= p <= a + 6]
+            c = rng.choice(near) if near else a
     tr = Transform(doc)
     hcrash, approved, in_range, performed, structure_only = False, False, True, False, False
     args = {"pos": a, "to": c}
@@ -114,7 +122,7 @@ def helper_case(rng, fam, g, doc: Node, docs, helper):
     return Case(coq=coq, desc=desc, schema=info.schema_term(), kind=f"{helper}/{k}", nontrivial=approved)
 
 
-HELPERS = ["can_split", "can_join", "join_point", "lift_target", "find_wrapping", "insert_point", "drop_point"]
+HELPERS = ["can_split", "can_join", "join_point", "lift_target", "lift_target", "lift_target", "find_wrapping", "insert_point", "drop_point"]
 
 
 def generate(rng: random.Random, tier: str):
